@@ -148,6 +148,21 @@ fn dispatcher_validates() -> bool {
     }
 }
 
+/// anchor (drift detection only, never an alarm): do the three `Frame::Ack` dispatcher arms still read
+/// `cc.on_ack_rcvd` → `rcvd_journal.on_rcvd_ack` → send to the piped `Ack*Space`?
+fn dispatcher_arms_as_copied() -> u64 {
+    let mut n = 0;
+    for f in ["initial", "handshake", "data"] {
+        let Ok(src) = std::fs::read_to_string(format!("{}/qconnection/src/space/{}.rs", repo_root(), f)) else { continue };
+        let Some(a) = src.find("Frame::Ack(f) => {") else { continue };
+        let Some(b) = src[a..].find('}') else { continue };
+        let arm: String = src[a..a + b].chars().filter(|c| !c.is_whitespace()).collect();
+        let (Some(x), Some(y), Some(z)) = (arm.find(".on_ack_rcvd(Epoch::"), arm.find(".on_rcvd_ack(&f)"), arm.find("ack_frames_entry.send(f)")) else { continue };
+        if x < y && y < z { n += 1; }
+    }
+    n
+}
+
 fn const_in(file: &str, name: &str) -> Option<u64> {
     let src = std::fs::read_to_string(format!("{}/{}", repo_root(), file)).ok()?;
     let at = src.find(&format!("const {}: u64 =", name))?;
@@ -597,6 +612,7 @@ fn run_ack(o: &Opts) {
     let restarts = c.pool.restarts;
     c.pool.kill();
     sink.note("worker_restarts", serde_json::json!(restarts));
+    sink.note("dispatcher_ack_arms_as_copied_by_the_harness", serde_json::json!(format!("{}/3", dispatcher_arms_as_copied())));
     sink.finish(&o.stats, "C04a: 0..60 packets sent (sent journal + qcongestion), a few packets received, then 1..3 ACK frames: benign runs / everything, first_range > largest, gap underflow, largest >= next pn (with first_range = largest or small), all fields from the boundary set {0,1,63,64,2^14+-1,2^30+-1,2^31,2^62-2,2^62-1,state+-1} + uniform 62-bit; real dispatcher order replayed in a worker process with RLIMIT_AS and a 10 s wall (8 s CPU) cap per operation; non-trivial = an ACK accepted; distinct by transcript hash");
 }
 
